@@ -66,6 +66,8 @@ func main() {
 		cmdReplay(os.Args[2:])
 	case "selftest":
 		cmdSelftest(os.Args[2:])
+	case "c13":
+		cmdC13(os.Args[2:])
 	case "list":
 		for _, id := range props.IDs() {
 			fmt.Println(id)
@@ -747,6 +749,10 @@ func cmdReplay(args []string) {
 	var v ViolOut
 	if err := json.Unmarshal(b, &v); err != nil {
 		die2("%v", err)
+	}
+	if v.Property == "C13" {
+		cmdC13([]string{"-tier", v.Tier, "-mapseed", strconv.FormatUint(v.RunSeed, 10)})
+		return
 	}
 	p := props.Get(v.Property)
 	if p == nil {
